@@ -16,7 +16,7 @@ var rules = map[string]string{
 	"C19": "case = 2..6 tasks, each making 1..3 calls on arguments from a shared pool (same backing arrays / objects), run solo and then interleaved by the seeded scheduler with a bounded number of preemptions at yield points (function entries, package-variable accesses, sync operations). An interleaved run is non-trivial iff >= 1 context switch happened strictly inside a library call; distinct = distinct hash of the (task, site) switch sequence plus the call set.",
 }
 
-func writeEvidence(f *commonFlags, tot *Stats, wall float64, reported, known []string, laneB map[string]any) error {
+func writeEvidence(f *commonFlags, tot *Stats, wall float64, reported, known []string, laneB, laneR map[string]any) error {
 	inv := loadInventory(f.inv)
 	cov := map[string]any{
 		"evaluations":         tot.Evaluations,
@@ -38,12 +38,12 @@ func writeEvidence(f *commonFlags, tot *Stats, wall float64, reported, known []s
 		"run_digest":           fmt.Sprintf("%016x", tot.Digest),
 		"components_real": []string{"all packages of github.com/trajectoryjp/spatial_id_go/v4 (instrumented scratch copy of /repo's working tree)",
 			"closest_go, geodesy_go, multidimensional-radix-tree, wroge/wgs84, mgl64, gonum (unmodified module-cache copies)"},
-		"components_stub":           []string{},
-		"known_findings_matched":    known,
-		"violation_classes":         reported,
+		"components_stub":            []string{},
+		"known_findings_matched":     known,
+		"violation_classes":          reported,
 		"unorderable_map_key_visits": tot.Unorderable,
-		"extra":                     tot.Extra,
-		"go_version":                runtime.Version(),
+		"extra":                      tot.Extra,
+		"go_version":                 runtime.Version(),
 	}
 	if tot.Samples == nil || len(tot.Samples) == 0 {
 		cov["samples"] = []any{"no case was executed"}
@@ -90,6 +90,9 @@ func writeEvidence(f *commonFlags, tot *Stats, wall float64, reported, known []s
 			}
 			cov["api_coverage"] = map[string]any{"exported_functions_and_methods": n, "covered_by_catalogue": n - len(missing), "not_covered": missing}
 		}
+	}
+	if laneR != nil {
+		cov["lane_r"] = laneR
 	}
 	if laneB != nil {
 		cov["lane_b"] = laneB
